@@ -27,6 +27,7 @@ import (
 	"runtime"
 	"sort"
 	"strings"
+	"sync/atomic"
 	"time"
 
 	"github.com/janelia-flyem/dvid/datastore"
@@ -386,9 +387,34 @@ func (c caseT) coq() string {
 
 var explore = os.Getenv("C02_EXPLORE") != ""
 
+// heartbeat: besides the per-request watchdog, the whole run gives up (exit 3, with a goroutine
+// dump) when nothing has completed for three minutes: DVID can deadlock on its repo lock.
+var beats int64
+
+func beat() { atomic.AddInt64(&beats, 1) }
+
+func startHeartbeat() {
+	go func() {
+		last := int64(-1)
+		for {
+			time.Sleep(180 * time.Second)
+			now := atomic.LoadInt64(&beats)
+			if now == last {
+				fmt.Fprintln(os.Stderr, "c02: no progress for 180 s")
+				buf := make([]byte, 1<<20)
+				n := runtime.Stack(buf, true)
+				os.Stderr.Write(buf[:n])
+				os.Exit(3)
+			}
+			last = now
+		}
+	}()
+}
+
 // watchdog: a handler that never returns (a lock left held after a recovered panic, say) must not
 // stall the check for its whole timeout: dump all goroutines and give up with exit code 3.
 func watchdog(what string, f func() dv.Resp) dv.Resp {
+	beat()
 	ch := make(chan dv.Resp, 1)
 	go func() { ch <- f() }()
 	select {
@@ -560,6 +586,7 @@ func main() {
 	dv.Open()
 	defer dv.Close()
 	server.VerifSetModes(false, false, "")
+	startHeartbeat()
 
 	setup(run)
 	byPkg := map[string][]instT{}
